@@ -213,6 +213,59 @@ func (g *c04gen) msgpackRow() hReq {
 		Hdr: map[string]string{"x-arc-database": "c04db"}, Body: b, Rids: rids, M: m}
 }
 
+// msgpackRowBatch: several DIFFERENT rows of one measurement in one row-format request.
+// Names are shared between tags and fields across rows (a tag in one row, a field in
+// another, absent in a third), timestamps are not in order, and - per variant - a
+// field is literally named "time", or a field "<x>_value" exists next to a tag/field
+// clash on "<x>" (the name arc gives a field that collides with a tag).
+func (g *c04gen) msgpackRowBatch() hReq {
+	r := g.r
+	m := c04Measurements[r.IntN(2)]
+	variant := r.IntN(3)
+	names := []string{"dc", "host", "zone"}
+	class := "msgpack row batch: names shared between tags and fields"
+	switch variant {
+	case 1:
+		names = append(names, "time")
+		class = "msgpack row batch: field named time"
+	case 2:
+		names = append(names, "dc_value")
+		class = "msgpack row batch: <name>_value next to a tag/field clash on <name>"
+	}
+	n := 2 + r.IntN(5)
+	rids := g.nextRids(n)
+	offs := r.Perm(n)
+	var rows []any
+	for i := 0; i < n; i++ {
+		fields := map[string]any{"rid": rids[i], "v": float64(i) + 0.5}
+		tags := map[string]any{}
+		for _, name := range names {
+			val := any(fmt.Sprintf("s%d", r.IntN(3)))
+			if name == "time" {
+				val = int64(1_700_000_000_000_000) + int64(r.IntN(3000))*1_000_000
+			}
+			switch r.IntN(3) {
+			case 0:
+				if name != "time" {
+					tags[name] = val
+				} else {
+					fields[name] = val
+				}
+			case 1:
+				fields[name] = val
+			}
+		}
+		rows = append(rows, map[string]any{"m": m, "t": int64(1_700_000_000_000_000) + int64(offs[i])*7_000_000, "fields": fields, "tags": tags})
+	}
+	var payload any = rows
+	if r.IntN(2) == 0 {
+		payload = map[string]any{"batch": rows}
+	}
+	b, _ := msgpack.Marshal(payload)
+	return hReq{Desc: fmt.Sprintf("msgpack row batch of %d rows", n), Class: class, Path: "/api/v1/write/msgpack",
+		Hdr: map[string]string{"x-arc-database": "c04db"}, Body: b, Rids: rids, M: m}
+}
+
 func (g *c04gen) lineProtocol() hReq {
 	r := g.r
 	m := c04Measurements[r.IntN(2)]
@@ -374,6 +427,9 @@ func (g *c04gen) next() hReq {
 	case 0, 1, 2, 3:
 		q = g.msgpackColumnar()
 	case 4:
+		if g.r.IntN(2) == 0 {
+			return g.msgpackRowBatch()
+		}
 		q = g.msgpackRow()
 	case 5, 6:
 		q = g.lineProtocol()
